@@ -343,7 +343,12 @@ func newSandboxUR(world map[string]any, canaries bool, userRoot bool) (*sandbox,
 		return nil, err
 	}
 	pats, none := ignoreOf(world)
-	w, err := sim.NewWorld(sim.WorldOpts{BaseDir: base, IgnoreFiles: pats, NoIgnore: none})
+	// (the account files carry the marker too, in the account name: reading one of them is a disclosure)
+	accts := []sim.Acct{
+		{Login: "guest", Name: "guest " + Marker, Access: sim.AccessBits(2, 9, 10, 11, 20, 21, 26, 40)},
+		{Login: "admin", Name: "admin " + Marker, Password: "admin", Access: sim.DefinedOnly(sim.AllAccess())},
+	}
+	w, err := sim.NewWorld(sim.WorldOpts{BaseDir: base, IgnoreFiles: pats, NoIgnore: none, Accounts: accts})
 	if err != nil {
 		_ = os.RemoveAll(outer)
 		return nil, err
